@@ -13,6 +13,7 @@ import re
 import os.path
 import queue
 import gc
+import heapq
 
 from contextlib import contextmanager
 from time import perf_counter, time
@@ -752,6 +753,10 @@ class LMDBStorage(BaseStorage):
 class Subscription(BaseSubscription):
     def prepare(self):
         self.query = planner(self.filters, log=self.log)
+        for i, plan in enumerate(self.query):
+            # never send more than Config.max_limit events per filter
+            if plan.limit is None or plan.limit > self.default_limit:
+                self.query[i] = plan._replace(limit=self.default_limit)
         return bool(self.query)
 
     async def run_query(self):
@@ -1080,11 +1085,21 @@ def execute_one_plan(
                 since=plan.since,
                 until=plan.until,
             ) as scanner:
-                for event in matcher(txn, scanner, plan.query, plan.stats):
-                    if count == limit:
-                        break
-                    on_event(event)
-                    count += 1
+                matched = matcher(txn, scanner, plan.query, plan.stats)
+                if len(plan.matches) > 1 and limit is not None:
+                    # each match value is scanned newest-first on its own (and a
+                    # MultiIndex yields an unordered set), so the newest events
+                    # overall have to be selected explicitly
+                    events.extend(
+                        heapq.nlargest(limit, matched, key=lambda e: e.created_at)
+                    )
+                    count = len(events)
+                else:
+                    for event in matched:
+                        if count == limit:
+                            break
+                        on_event(event)
+                        count += 1
         plan.stats["count"] = count
         plan.stats["end"] = perf_counter()
     except Exception:
